@@ -12,8 +12,9 @@ def run_cli(args, cwd, extra_env=None, timeout=180, launcher=None):
     env['PYTHONDONTWRITEBYTECODE'] = '1'
     env.pop('PYTHONHASHSEED', None)
     env.update(extra_env or {})
+    py = [sys.executable] + (['-O'] if core._NOASSERT else [])      # shards in no-assert mode run the command line under python -O too
     if launcher:
-        cmd = [sys.executable, launcher] + list(args)
+        cmd = py + [launcher] + list(args)
     else:
-        cmd = [sys.executable, '-m', 'bronzebeard.asm'] + list(args)
+        cmd = py + ['-m', 'bronzebeard.asm'] + list(args)
     return subprocess.run(cmd, cwd=cwd, env=env, capture_output=True, text=True, timeout=timeout)
